@@ -3,6 +3,7 @@ package main
 // Calls: builtins, library models, contracted callees, inlined callees, abstraction.
 
 import (
+	"sort"
 	"os"
 	"fmt"
 	"go/token"
@@ -442,7 +443,7 @@ func (tr *FnTr) havocAllMem(m *Term, tag string) *Term {
 		}
 	}
 	for _, o := range priv {
-		out = Store(out, o, Select(m, o))
+		out = Store(out, o, SelectDeep(m, o))
 	}
 	return tr.vc.Def("mem_"+tag+"_p", out)
 }
@@ -959,6 +960,11 @@ func (tr *FnTr) assumeGlobals() {
 		if tr.top.fn != nil && tr.top.fn.Pkg != nil && !pkgSees(tr.top.fn.Pkg.Pkg, g.Pkg) {
 			continue
 		}
+		// a quantified invariant (the content of a table) is assumed only where the code
+		// reads one of the variables it is about: elsewhere it only slows the solvers down
+		if exprHasQuant(g.C.E) && tr.top.fn != nil && !tr.top.usesGlobalOf(g.Pkg, exprIds(g.C.E, nil)) {
+			continue
+		}
 		ctx := &SpecCtx{tr: tr, st: tr.st, old: tr.top.entry, pkg: sp}
 		tr.vc.Assume(Implies(tr.st.Reach, ctx.fact(g.C.E)))
 		tr.vc.Assumed = appendUniq(tr.vc.Assumed, "global invariant assumed ("+shortPkg(g.Pkg)+"): "+g.C.Src)
@@ -1047,5 +1053,94 @@ func pkgSees(p *types.Package, path string) bool {
 	}
 	r := walk(p)
 	pkgSeesMemo[key] = r
+	return r
+}
+
+func exprHasQuant(e *Expr) bool {
+	if e == nil {
+		return false
+	}
+	if e.Op == "forall" || e.Op == "exists" {
+		return true
+	}
+	for _, a := range e.Args {
+		if exprHasQuant(a) {
+			return true
+		}
+	}
+	return false
+}
+
+func exprIds(e *Expr, acc map[string]bool) map[string]bool {
+	if acc == nil {
+		acc = map[string]bool{}
+	}
+	if e == nil {
+		return acc
+	}
+	if e.Op == "id" {
+		acc[e.Name] = true
+	}
+	for _, a := range e.Args {
+		exprIds(a, acc)
+	}
+	return acc
+}
+
+// usesGlobalOf: does the function (or a function inlined into it) mention a package-level
+// variable of package path whose name is in names?
+func (top *FnTr) usesGlobalOf(path string, names map[string]bool) bool {
+	key := path + "|"
+	var ns []string
+	for n := range names {
+		ns = append(ns, n)
+	}
+	sort.Strings(ns)
+	key += strings.Join(ns, ",")
+	if top.usesMemo == nil {
+		top.usesMemo = map[string]bool{}
+	}
+	if v, ok := top.usesMemo[key]; ok {
+		return v
+	}
+	seen := map[*ssa.Function]bool{}
+	var scan func(f *ssa.Function, depth int) bool
+	scan = func(f *ssa.Function, depth int) bool {
+		if f == nil || seen[f] || depth > 4 {
+			return false
+		}
+		seen[f] = true
+		for _, b := range f.Blocks {
+			for _, in := range b.Instrs {
+				var ops [12]*ssa.Value
+				for _, op := range in.Operands(ops[:0]) {
+					if op == nil || *op == nil {
+						continue
+					}
+					if g, ok := (*op).(*ssa.Global); ok && g.Pkg != nil && g.Pkg.Pkg.Path() == path && names[g.Name()] {
+						return true
+					}
+				}
+				if c, ok := in.(ssa.CallInstruction); ok {
+					if cal := c.Common().StaticCallee(); cal != nil {
+						ct := top.eng.contractFor(calleeName(cal))
+						if (ct != nil && ct.Inline) || (ct == nil && top.eng.autoInline(cal)) {
+							if scan(cal, depth+1) {
+								return true
+							}
+						}
+					}
+				}
+			}
+		}
+		for _, af := range f.AnonFuncs {
+			if scan(af, depth+1) {
+				return true
+			}
+		}
+		return false
+	}
+	r := scan(top.fn, 0)
+	top.usesMemo[key] = r
 	return r
 }
